@@ -305,3 +305,31 @@ Proof.
   - induction H2 as [|p q ps qs [A B C D E] _ IH]; constructor; auto.
   - induction H5 as [|x y xs ys [A B C D] _ IH]; constructor; auto.
 Qed.
+
+(* ---- the file-level round trip stated on elections ---- *)
+Lemma numch_nolb s : Forall (fun c => numch c = true) s -> nolb s = true.
+Proof.
+  intros H. unfold nolb. apply forallb_forall. rewrite Forall_forall in H. intros c Hc.
+  destruct (numch_facts c (H c Hc)) as (_ & _ & _ & _ & _ & _ & _ & _ & Hl). now rewrite Hl.
+Qed.
+
+Lemma show_q_dec_nolb q : nolb (show_q_dec q) = true.
+Proof. apply numch_nolb, show_q_dec_chars. Qed.
+
+Lemma show_nat_dec_nolb n : nolb (show_nat_dec n) = true.
+Proof. apply numch_nolb, digits_numch, show_nat_dec_digits. Qed.
+
+Theorem write_rows_x_no_linebreak e :
+  wf_election_x e = true -> no_linebreak_election e = true -> rows_no_linebreak (write_rows_x e).
+Proof.
+  intros W Hlb.
+  apply (write_rows_no_linebreak show_q_dec read_q_dec show_nat_dec read_nat_dec show_q_dec_nolb show_nat_dec_nolb e);
+    [apply (wf_election_facts show_q_dec read_q_dec show_nat_dec read_nat_dec); exact W|exact Hlb].
+Qed.
+
+(* M (file level): a well-formed election none of whose names, keys and values contains a line-break character
+   is recovered, in normal form, from the FILE the writer model produces *)
+Theorem parse_file_roundtrip_election_x e :
+  wf_election_x e = true -> no_linebreak_election e = true ->
+  parse_file_x (write_file_x e) = Some (canon_x e).
+Proof. intros W Hlb. apply parse_file_roundtrip_x; [exact W|apply write_rows_x_no_linebreak; assumption]. Qed.
